@@ -1,5 +1,9 @@
 import Driver.Proto
 import Gotree.Spec.C16
+import Gotree.Spec.C16Keys
+import Gotree.Spec.C16Index
+import Gotree.Spec.C16Cli
+import Gotree.Spec.C16Extra
 
 namespace Gotree.Driver.C16
 open Gotree Gotree.Driver Gotree.C16
@@ -56,6 +60,14 @@ def genTags (g : GenKind) (n : Int) (rooted : Bool) (ints : List Nat) (lens : Li
   tagIf (!below && lensNonneg lens) "hyp-lens-nonneg" ++
   tagIf (!below) "hyp-min"
 
+def parseBitRows (s : String) : List (List Bool) :=
+  (splitTerm ";" s).map fun r => r.toList.map (· == '1')
+
+def parseIdxObs (rawS nleftS nrightS hcS tdS tiS : String) : Option IdxObs :=
+  match parseIntList nleftS, parseIntList nrightS, parseNatList hcS, parseIntList tdS, parseIntList tiS with
+  | some nl, some nr, some hc, some td, some ti => some ⟨parseBitRows rawS, nl, nr, hc, td, ti⟩
+  | _, _, _, _, _ => none
+
 def handleGen (f : List String) : Verdict :=
   match f with
   | ks :: ns :: rs :: _seed :: cls :: intsS :: lensS :: sync :: rest =>
@@ -78,9 +90,14 @@ def handleGen (f : List String) : Verdict :=
       else if cl == "err" then ⟨.oracle, tags, "a valid size was rejected"⟩
       else
         match rest with
-        | [dump, tipsS, rflag, probesS, ansS, bitsS, nrightS] =>
-          match T.undump dump, parseStrList tipsS, parseBool rflag, parseStrList probesS, parseNatList nrightS with
-          | some t, some tips, some rf, some probes, some nright =>
+        | dump :: tipsS :: rflag :: probesS :: ansS :: bitsS :: nrightS :: idxRest =>
+          -- the raw index records (absent on lines written by older harnesses)
+          let idxObs : Option (Option IdxObs) := match idxRest with
+            | [] => some none
+            | [rawS, nleftS, hcS, tdS, tiS] => (parseIdxObs rawS nleftS nrightS hcS tdS tiS).map some
+            | _ => none
+          match T.undump dump, parseStrList tipsS, parseBool rflag, parseStrList probesS, parseNatList nrightS, idxObs with
+          | some t, some tips, some rf, some probes, some nright, some iob =>
             let nn := n.toNat
             let treeOK := genTreeOK g nn rooted t
             let flagsOK := tips == t.tipNames && rf == t.rooted
@@ -95,19 +112,23 @@ def handleGen (f : List String) : Verdict :=
             else if !flagsOK then ⟨.oracle, tags, "Tips()/Rooted() disagree with the tree"⟩
             else if !exOK then ⟨.oracle, tags, "index not ready: ExistsTip answers are wrong"⟩
             else if !bOK then ⟨.oracle, tags, "index not ready: bitsets / taxon counts do not describe the tree"⟩
+            else if !(match iob with | some ob => indexOK t tips ob | none => true) then
+              ⟨.oracle, tags, "index not ready: a branch record (bitset, taxon counts, TopoDepth) or a TipIndex is not what the split prescribes (C04.branchOK)"⟩
             else
               match m with
               | .ok o =>
                 let exact := (eraseIds o.t).dump == (eraseIds t).dump
-                let tags := tags ++ tagIf exact "exact" ++ tagIf (lensEq o.t t) "lens-exact"
+                let tags := tags ++ tagIf exact "exact" ++ tagIf (lensEq o.t t) "lens-exact" ++ tagIf iob.isSome "index-records"
                 if sync != "ok" then ⟨.tie, tags, "draw protocol: the code did not consume the scripted draws"⟩
                 else if !scriptOK then ⟨.tie, tags, "draw protocol: the harness script is not the model's"⟩
                 else if !obsEq o.t t then ⟨.tie, tags, "model tree " ++ o.t.dump⟩
                 else if !indexReady o then ⟨.tie, tags, "model index not ready"⟩
+                else if !(match iob with | some ob => indexTie C04.fnv1a o t ob | none => true) then
+                  ⟨.tie, tags, "index records (bitset, counts, HashCode) differ from C04's ReinitIndexes on the model's tree"⟩
                 else ⟨.pass, tags, ""⟩
               | .err e => ⟨.tie, tags, "model rejects: " ++ e⟩
               | .panic e => ⟨.tie, tags, "model panics: " ++ e⟩
-          | _, _, _, _, _ => bad "C16.gen result fields"
+          | _, _, _, _, _, _ => bad "C16.gen result fields"
         | _ => bad "C16.gen: ok without result fields"
     | _, _, _, _, _ => bad "C16.gen fields"
   | _ => bad "C16.gen arity"
@@ -116,12 +137,20 @@ def parseNatMatrix (s : String) : Option (List (List Nat)) := (splitTerm ";" s).
 
 def handleCli (f : List String) : Verdict :=
   match f with
-  | [ks, ns, rs, _seed, nbS, outS, exitS, flags, ntrees, badS, dumps, intsS, lensS] =>
-    match GenKind.parse ks, ns.toInt?, parseBool rs, nbS.toNat?, parseNatMatrix intsS, parseRatMatrix lensS with
-    | some g, some n, some rooted0, some nb, some intsM, some lensM =>
+  | [ks, ns, rs, seedS, nbS, outS, variant, argvS, exitS, flags, ntrees, badS, dumps, intsS, lensS] =>
+    match GenKind.parse ks, ns.toInt?, parseBool rs, nbS.toNat?, parseNatMatrix intsS, parseRatMatrix lensS, parseStrList argvS with
+    | some g, some n, some rooted0, some nb, some intsM, some lensM, some argv =>
       let rooted := if g == .star then false else rooted0
-      let tags := "cli" :: genTags g n rooted (intsM.headD []) (lensM.headD []) ++ tagIf (exitS == "0") "exit0" ++
+      let tags := "cli" :: ("opts-" ++ variant) :: genTags g n rooted (intsM.headD []) (lensM.headD []) ++ tagIf (exitS == "0") "exit0" ++
         tagIf (nb > 1) "several-trees" ++ tagIf (outS == "1") "to-file"
+      -- option handling: the request the model reads off the command-line words must be the one the
+      -- harness meant (size, rootedness, number of trees, output, seed)
+      let seeded := variant != "noseed"
+      let optsOK := match parseGenArgs (g == .balanced) argv (GenReq.default (g == .balanced)) with
+        | none => false
+        | some r => r.size == n && r.rooted == rooted0 && r.nbtrees == (nb : Int) && r.toFile == (outS == "1") &&
+            (if seeded then r.seed == seedS.toInt? else r.seed == none)
+      if !optsOK then ⟨.tie, tags, "option handling: the model reads another request off the command line"⟩ else
       let below := decide (n < (g.min rooted : Int))
       let hasP := flags.contains 'P' || flags.contains 'T'
       let hasE := flags.contains 'E'
@@ -151,8 +180,9 @@ def handleCli (f : List String) : Verdict :=
               | .ok o => lensEq o.t t
               | _ => false
             let tags := tags ++ tagIf lensExact "lens-exact"
-            if tied then ⟨.pass, tags, ""⟩ else ⟨.tie, tags, "a written tree differs from the model's tree for the replayed draws"⟩
-    | _, _, _, _, _, _ => bad "C16.cli fields"
+            if !seeded then ⟨.pass, "oracle-only" :: tags, ""⟩
+            else if tied then ⟨.pass, tags, ""⟩ else ⟨.tie, tags, "a written tree differs from the model's tree for the replayed draws"⟩
+    | _, _, _, _, _, _, _ => bad "C16.cli fields"
   | _ => bad "C16.cli arity"
 
 def handleTopo (f : List String) : Verdict :=
@@ -188,6 +218,8 @@ def handleTopo (f : List String) : Verdict :=
             ⟨.oracle, tags, "number of topologies " ++ toString ts.length ++ " instead of " ++ toString (topoCount nn rooted)⟩
           else if !(ts.all (fun t => topoTreeOK nn rooted t names)) then ⟨.oracle, tags, "an enumerated tree is not a binary tree on the requested tips"⟩
           else if dup then ⟨.pass, "skip-dupnames" :: tags, ""⟩
+          else if nn ≤ 10 && !(distinctNat (ts.map (topoKeyN (topoNames names nn) rooted))) then
+            ⟨.oracle, tags, "a topology is enumerated twice (numeric canonical form, theorem topoOKN_sound)"⟩
           else if !(distinctKeys (ts.map (topoKey rooted))) then ⟨.oracle, tags, "a topology is enumerated twice"⟩
           else if ts.length ≤ 105 && !(pairwiseDistinct (ts.map belowFam)) then
             ⟨.oracle, tags, "a topology is enumerated twice (family of leaf sets, the predicate of allTopologies_nodup)"⟩
@@ -202,11 +234,66 @@ def handleTopo (f : List String) : Verdict :=
     | _, _, _ => bad "C16.topo fields"
   | _ => bad "C16.topo arity"
 
+/-- common frame of the extra constructors: expected class from the model, oracle on the returned
+    tree, exact agreement of the dumps (the constructions are deterministic) -/
+def extraVerdict (tags : List String) (m : Res Out) (cls : String) (dumpS : String) (ok : T → Bool) : Verdict :=
+  let cl := classOf cls
+  if cl == "panic" || cl == "timeout" || cl == "memory" || cl == "malformed" then
+    ⟨.oracle, "crash" :: tags, "the constructor crashed or returned a broken heap: " ++ cls⟩
+  else
+    match m, cl with
+    | .err e, "err" =>
+      -- fidelity only: is it the same error message
+      ⟨.pass, "rejected" :: "nontrivial" :: tags ++ tagIf (cls == "err:" ++ escape e) "same-error", ""⟩
+    | .err e, _ => ⟨.oracle, tags, "an input that must be rejected (" ++ e ++ ") was accepted"⟩
+    | .panic e, _ => ⟨.tie, tags, "model panics: " ++ e⟩
+    | .ok _, "err" => ⟨.oracle, tags, "a valid input was rejected"⟩
+    | .ok o, _ =>
+      match T.undump dumpS with
+      | none => bad "extra dump"
+      | some t =>
+        if !(ok t) then ⟨.oracle, tags, "the returned tree is not the tree the constructor must build"⟩
+        else if (eraseIds o.t).dump != (eraseIds t).dump then ⟨.tie, tags, "model tree " ++ o.t.dump⟩
+        else ⟨.pass, "nontrivial" :: "exact" :: tags, ""⟩
+
+def handleExtra (op : String) (f : List String) : Verdict :=
+  match op, f with
+  | "starn", [namesS, cls, dumpS] =>
+    match parseStrList namesS with
+    | some names =>
+      extraVerdict (["starn"] ++ tagIf (hasDup names) "dup-names" ++ tagIf (names.length < 2) "below-min")
+        (starFromNames names) cls dumpS (starFromNamesOK names)
+    | none => bad "C16.starn fields"
+  | "start", [dinS, cls, dumpS] =>
+    match T.undump dinS with
+    | some tin =>
+      let te := tipEdgesOf tin
+      extraVerdict (["start"] ++ tagIf (hasDup (te.map (·.1))) "dup-names" ++ tagIf (te.length < 2) "below-min" ++
+          tagIf (tin.kids.length == 1) "roottip" ++ tagIf (te.any fun x => x.2 == NIL) "absent-length")
+        (starFromTree tin) cls dumpS (starFromTreeOK tin)
+    | none => bad "C16.start fields"
+  | "bipart", [leftS, rightS, cls, dumpS] =>
+    match parseStrList leftS, parseStrList rightS with
+    | some left, some right =>
+      extraVerdict (["bipart"] ++ tagIf (hasDup (left ++ right)) "dup-names" ++
+          tagIf (left.length ≤ 1 || right.length ≤ 1) "below-min")
+        (bipartitionTree left right) cls dumpS (twoStarOK left right)
+    | _, _ => bad "C16.bipart fields"
+  | "edgetree", [dinS, kS, cls, dumpS] =>
+    match T.undump dinS, kS.toNat? with
+    | some tin, some k =>
+      let below := (tin.splits.getD k ⟨[], EdgeD.blank, false⟩).below
+      extraVerdict (["edgetree"] ++ tagIf (below.length ≤ 1) "tip-branch")
+        (edgeTree tin k) cls dumpS
+        (twoStarOK (tin.tipNames.filter fun x => !below.contains x) (tin.tipNames.filter fun x => below.contains x))
+    | _, _ => bad "C16.edgetree fields"
+  | _, _ => bad ("C16: unknown op " ++ op)
+
 def handle (op : String) (f : List String) : Verdict :=
   match op with
   | "gen" => handleGen f
   | "cli" => handleCli f
   | "topo" => handleTopo f
-  | _ => bad ("C16: unknown op " ++ op)
+  | _ => handleExtra op f
 
 end Gotree.Driver.C16
